@@ -551,6 +551,8 @@ def _m_extend(eng, recv, args, kwargs):
     (src,) = args
     check_frame(eng, recv)
     if recv.items is not None:
+        if not recv.items and isinstance(src, SArr):
+            return _extend_empty_by_array(eng, recv, src)
         recv.items.extend(iterate_concrete(eng, src))
         return None
     hook = getattr(eng, "extend_hook", None)
@@ -575,6 +577,13 @@ def _m_extend(eng, recv, args, kwargs):
             _m_append(eng, recv, [x], {})
         return None
     raise Unsupported("extend of a symbolic list by this kind of iterable")
+
+
+def _extend_empty_by_array(eng, recv, src):
+    """[].extend(ndarray): the list becomes the array's elements in order"""
+    recv.items, recv.kinds, recv.tup = None, [src.kind], False
+    recv.cols, recv.n = [src.arr], src.n
+    return None
 
 
 def _m_clear(eng, recv, args, kwargs):
